@@ -240,6 +240,9 @@ func extractTarGz(tarGzFile, dest string) error {
 			return err
 		}
 		target := filepath.Join(dest, header.Name)
+		if target == filepath.Clean(dest) && header.Typeflag == tar.TypeDir {
+			continue // the "./" entry of the archive root
+		}
 		if !strings.HasPrefix(target, filepath.Clean(dest)+string(os.PathSeparator)) {
 			return fmt.Errorf("%s: illegal file path", target)
 		}
